@@ -149,7 +149,7 @@ def run_shard(spec) -> Acc:
 
 
 def plan(tier, seed):
-    n = 200 if tier == "quick" else 5000
+    n = 400 if tier == "quick" else 5000
     specs = [{"shard": i, "n": n, "max_len": 12 if tier == "quick" else 30} for i in range(14)]
     # coverage-guided differential campaign: bytes the reference decoder calls valid must parse to its events
     runs = 20000 if tier == "quick" else 2500000
